@@ -95,6 +95,17 @@ class UnitMismatch(Exception):
         self.node = node
 
 
+def _inlined_helper(call: ast.Call):
+    """The expression a repository helper call stands for (named intermediates + one returned expression), or None."""
+    from .algebra import INLINE_FUNCTIONS
+    if isinstance(call.func, ast.Name) and call.func.id in INLINE_FUNCTIONS:
+        from .inline import inline_simple_calls
+        e2 = inline_simple_calls(call, {call.func.id: INLINE_FUNCTIONS[call.func.id]})
+        if not (isinstance(e2, ast.Call) and isinstance(e2.func, ast.Name) and e2.func.id == call.func.id):
+            return e2
+    return None
+
+
 class UnitTyper:
     """Types an expression.  atom_type(key, node) -> UT | None (None => unknown atom => AnalysisError unless
     `unknown_ok`, in which case the expression is reported untypable).  binds: symflow Defs followed lazily."""
@@ -166,6 +177,9 @@ class UnitTyper:
                 return self._add(a, b, node)
             raise UnitMismatch(f'unsupported operator in {norm(node)[:60]}', node)
         if isinstance(node, ast.Call):
+            e2 = _inlined_helper(node)
+            if e2 is not None:
+                return self.ty(e2)
             d = dotted_name(node.func) or norm(node.func)
             if d in LINEAR_WRAPPERS and node.args:
                 return self.ty(node.args[0])
@@ -272,6 +286,9 @@ def degree(node: ast.AST, in_set: Callable[[str], bool], binds=None, zero_calls_
                 return go(n.value, b)
             return None
         if isinstance(n, ast.Call):
+            e2 = _inlined_helper(n)
+            if e2 is not None:
+                return go(e2, b)
             d = dotted_name(n.func) or ''
             if isinstance(n.func, ast.Attribute) and n.func.attr == 'to' and dotted_name(n.func) is None:
                 return go(n.func.value, b)
@@ -370,6 +387,9 @@ def interval(node: ast.AST, atom_iv: Callable[[str], Optional[Tuple[float, float
                 return (-INF, INF)
             return (-INF, INF)
         if isinstance(n, ast.Call):
+            e2 = _inlined_helper(n)
+            if e2 is not None:
+                return go(e2, b)
             d = dotted_name(n.func) or ''
             if d in LINEAR_WRAPPERS and n.args:
                 lo, hi = go(n.args[0], b)
@@ -486,6 +506,9 @@ def monotone(node: ast.AST, var: str, atom_iv: Callable[[str], Optional[Tuple[fl
                 return UNKNOWN if (l != CONST or r != CONST) else CONST
             return UNKNOWN
         if isinstance(n, ast.Call):
+            e2 = _inlined_helper(n)
+            if e2 is not None:
+                return go(e2, b)
             d = dotted_name(n.func) or ''
             if d in LINEAR_WRAPPERS and n.args:
                 return go(n.args[0], b)
